@@ -337,9 +337,18 @@ def shard(task):
                 sh.violation({"symptom": sym, "base": base["name"]}, msg, {"kind": "image", "base": bidx, "tier": tier, "label": list(label)})
     elif kind == "special":
         # archives that need a password not given / use an unsupported method / are not archives at all
-        for path in fixtures():
+        from mc.ref import ref7z
+
+        gen = os.path.join(wd, "c19gen")
+        os.makedirs(gen, exist_ok=True)
+        # a directory and an empty file written without any streams section (what 7-Zip writes for such a tree)
+        with open(os.path.join(gen, "nostreams.7z"), "wb") as f:
+            f.write(ref7z.write([{"name": "d", "kind": "dir", "data": None, "mtime": 132223104000000000, "attr": 0x10},
+                                 {"name": "d/e.txt", "kind": "emptyfile", "data": b"", "mtime": 132223104000000001, "attr": 0x20}]))
+        GOOD = ("test_1.7z", "empty.7z", "test_folder.7z", "nostreams.7z")
+        for path in fixtures() + [os.path.join(gen, "nostreams.7z")]:
             n = os.path.basename(path)
-            if n not in ("encrypted_1.7z", "encrypted_3.7z", "filename_encryption.7z", "lz4.7z", "lzma_bcj2_1.7z", "zstdmt-brotli.7z", "crc_corrupted.7z", "data_corrupted.7z", "test_1.7z"):
+            if n not in ("encrypted_1.7z", "encrypted_3.7z", "filename_encryption.7z", "lz4.7z", "lzma_bcj2_1.7z", "zstdmt-brotli.7z", "crc_corrupted.7z", "data_corrupted.7z") + GOOD:
                 continue
             base = os.path.join(wd, "c19s")
             shutil.rmtree(base, ignore_errors=True)
@@ -349,14 +358,16 @@ def shard(task):
             st_x, _, ex = cli(["x", n, os.path.join(base, "o")], cwd=base)
             sh.case(("special", n), sample={"fixture": n, "t": st_t, "x": st_x} if len(sh.samples) < 3 else None)
             sh.count("cli_invocations", 2)
-            good = n == "test_1.7z"
-            if good and (st_t != 0 or st_x != 0):
-                sh.violation({"symptom": "status-nonzero-on-good", "fixture": n}, f"{n}: t -> {st_t}, x -> {st_x}", {"kind": "special", "name": n})
+            good = n in GOOD
+            st_l = cli(["l", n], cwd=base)[0] if good else 0
+            if good and (st_t != 0 or st_x != 0 or st_l != 0):
+                sh.violation({"symptom": "status-nonzero-on-good", "fixture": n}, f"{n}: t -> {st_t} ({et}), x -> {st_x} ({ex}), l -> {st_l}", {"kind": "special", "name": n})
             if not good and st_t == 0:
                 sh.violation({"symptom": "t-exits-0", "fixture": n}, f"{n} (encrypted without password / unsupported method / damaged): 't' exits 0", {"kind": "special", "name": n})
             if not good and st_x == 0:
                 sh.violation({"symptom": "x-exits-0", "fixture": n}, f"{n} (encrypted without password / unsupported method / damaged): 'x' exits 0", {"kind": "special", "name": n})
             shutil.rmtree(base, ignore_errors=True)
+        shutil.rmtree(gen, ignore_errors=True)
         for argv, want in ((["t", "nonexistent.7z"], "nonzero"), (["l", __file__], "nonzero"), (["t", __file__], "nonzero"), (["x", __file__], "nonzero"), (["i"], "zero"), ([], "zero")):
             st, _, _ = cli(argv, cwd=wd)
             sh.case(("argv", argv))
@@ -408,6 +419,14 @@ def replay(case):
             for label, img in damage_images(base["blob"], base["packed"], (want[0],)):
                 if tuple(label) == want:
                     return case_image(img, base["pristine"], wd, str(label))
+        if case["kind"] == "special":
+            old = os.getcwd()
+            os.chdir(wd)
+            try:
+                r = shard(("special", None))
+            finally:
+                os.chdir(old)
+            return [(v["sig"]["symptom"], v["what"]) for v in r["violations"] if v["sig"].get("fixture") == case["name"]]
         if case["kind"] == "argv":
             return [("status", cli(case["argv"], cwd=wd)[0])]
         return []
